@@ -114,3 +114,90 @@ Proof.
   - apply runtime_table_in in T. destruct (HA _ T _ _ _ _ _ H m') as (_ & H2 & _). exact (H2 Hc).
   - eapply unknown_tight_new; eassumption.
 Qed.
+
+(* ------------------------------------------------------------------ tightness outside the F6 class *)
+From Clvm Require Import Proofs.MachineRestrict Proofs.MachineTight Proofs.MachineBasics.
+
+(* the "barrier" dialect: ChiaDialect, except that an operator call whose unknown-operator cost
+   product would wrap 64 bits pre-hard-fork (finding F6) is reported as Err (Overflow 64). A run
+   on this dialect that does not end in that error is a run of ChiaDialect that never meets the
+   F6 class. (The test is applied to every opcode; for assigned one-byte opcodes the multiplier is
+   0 and the test can only fire on operand sizes beyond 2^60 bytes.) *)
+Definition nowrap_op (P : prims) (know4 : bool) (f0 : flagset) (o args : sexp) (m : N) (ext : opset) :=
+  match o with
+  | Atom b => if unknown_no_wrap_b b (op_flags f0 ext) args then chia_op P know4 f0 o args m ext
+              else Err (Overflow 64)
+  | Cons _ _ => chia_op P know4 f0 o args m ext
+  end.
+
+Definition nowrap_dialect (P : prims) (flags : flagset) : dialect :=
+  let f0 := dialect_flags flags in
+  {| d_flags := f0; d_quote := 1; d_apply := 2; d_softfork := 36;
+     d_ext := softfork_extension f0;
+     d_allow_unknown := negb (f_no_unknown_ops f0);
+     d_gc := gc_candidate f0;
+     d_op := nowrap_op P true f0 |}.
+
+Lemma nowrap_dop_budget P flags : dop_budget (nowrap_dialect P flags).
+Proof.
+  intros o a m ext c v H m'. cbn [d_op nowrap_dialect] in *. unfold nowrap_op in *.
+  destruct o as [b|]; [|apply chia_op_budget; exact H].
+  destruct (unknown_no_wrap_b b _ a); [apply chia_op_budget; exact H|discriminate].
+Qed.
+
+Lemma nowrap_dop_tight P flags : dop_tight (nowrap_dialect P flags).
+Proof.
+  intros o a m ext c v H m' Hc. cbn [d_op nowrap_dialect] in *. unfold nowrap_op in *.
+  destruct o as [b|]; [|discriminate].
+  destruct (unknown_no_wrap_b b _ a) eqn:NW; [|discriminate].
+  apply unknown_no_wrap_b_sound in NW.
+  assert (U : forall f, f = op_flags (dialect_flags flags) ext ->
+              unknown_operator b f a m = Ok (c, v) -> unknown_operator b f a m' = Ok (c, v)).
+  { intros f -> HU. destruct (unknown_operator_budget_if b _ a m c v NW HU m') as (_ & H2 & _). exact (H2 Hc). }
+  unfold chia_op in *.
+  pose proof (all_ops_budget P) as HA. rewrite Forall_forall in HA.
+  destruct (length b =? 4)%nat.
+  - destruct (true && bytes_eqb b SECP256K1_OPCODE)%bool.
+    { destruct (secp256k1_verify_budget P _ _ _ _ _ H m') as (_ & H2 & _). exact (H2 Hc). }
+    destruct (true && bytes_eqb b SECP256R1_OPCODE)%bool.
+    { destruct (secp256r1_verify_budget P _ _ _ _ _ H m') as (_ & H2 & _). exact (H2 Hc). }
+    apply (U _ eq_refl H).
+  - destruct (negb (length b =? 1)%nat); [apply (U _ eq_refl H)|].
+    destruct (small_number (Atom b)) as [op|]; [|apply (U _ eq_refl H)].
+    destruct (chia_table P (op_flags (dialect_flags flags) ext) op) as [[f|e]|] eqn:T.
+    + apply chia_table_in in T. destruct (HA _ T _ _ _ _ _ H m') as (_ & H2 & _). exact (H2 Hc).
+    + discriminate.
+    + apply (U _ eq_refl H).
+Qed.
+
+(* a success of the barrier dialect is the same success of ChiaDialect *)
+Lemma nowrap_restricts P flags fuel p e M r :
+  run_program (nowrap_dialect P flags) fuel p e M = Ok r ->
+  run_program (chia_dialect P flags) fuel p e M = Ok r.
+Proof.
+  intros H.
+  pose proof (run_program_rel (nowrap_dialect P flags) (chia_dialect P flags) (fun e => e = Overflow 64)
+    eq_refl eq_refl eq_refl (fun _ => eq_refl) (fun _ => eq_refl) eq_refl) as R.
+  cbn [d_flags nowrap_dialect chia_dialect d_allow_unknown d_op] in R.
+  specialize (R (fun size t => rr_refl _ _)). specialize (R (or_introl eq_refl) (or_introl eq_refl) (or_introl eq_refl)).
+  assert (Hop : forall o a m ext, rr (fun e => e = Overflow 64) (nowrap_op P true (dialect_flags flags) o a m ext)
+                                     (chia_op P true (dialect_flags flags) o a m ext)).
+  { intros o a m ext. unfold nowrap_op. destruct o as [b|]; [|apply rr_refl].
+    destruct (unknown_no_wrap_b b _ a); [apply rr_refl|left; reflexivity]. }
+  specialize (R Hop fuel p e M). rewrite H in R. exact R.
+Qed.
+
+(* C02 tightness for ChiaDialect under the pre-hard-fork cost model, outside the F6 class *)
+Theorem chia_tight_outside_F6 P flags : f_new_cost_model flags = false ->
+  forall fuel p e M1 M2 C v,
+  run_program (nowrap_dialect P flags) fuel p e M1 = Ok (C, v) ->
+  (run_program (chia_dialect P flags) fuel p e M2 = Ok (C, v) <-> C <= eff M2).
+Proof.
+  intros Hn fuel p e M1 M2 C v H1. split.
+  - apply run_program_sound.
+  - intros HC. apply nowrap_restricts.
+    refine (proj2 (run_program_tight (nowrap_dialect P flags) (nowrap_dop_budget P flags) (nowrap_dop_tight P flags) _
+                     fuel p e M1 M2 C v H1) HC).
+    intros x. cbn [d_ext nowrap_dialect]. unfold softfork_extension, dialect_flags. rewrite Hn. rewrite Hn.
+    destruct (x =? 0); [discriminate|]. destruct (x =? 1); discriminate.
+Qed.
